@@ -179,6 +179,12 @@ def run(facts, rep, tier, ctx):
                 d9 = o["key"].split("|")[2]
                 if d9.split(":")[0] in ("exists", "metadata", "read_dir"):
                     rep.ob(("A/" if w9.asyncw else "") + "R03.9", o["fn"], d9, o["ok"], o["detail"], o["loc"])
+    # (the overlay's merged listing — which remove_dir's emptiness test reads — asks is_dir(): a failed metadata lookup is an error of
+    # the listing, never "not a directory", or a flaky layer drops out and a directory that still has entries there is removed)
+    from . import c05 as _c05k3
+    for w9 in (ws, wa):
+        if w9.present():
+            _c05k3.is_kind_rules(facts, _c05k3._P5(rep if not w9.asyncw else c10._Prefixed(rep, "A"), "R03.9k"), w9, D3)
     # R03.8 on disk the tree is well-formed because the OS keeps it so — as long as the observers describe what the OS means: the
     # physical metadata follows links like exists/read_dir/create_dir do (an lstat makes a linked, non-empty directory "a file")
     from .. import physrules as _ph
